@@ -158,9 +158,10 @@ func (r *vfc18LoopRedis) IterateNodes(result func(string, interface{}, error), c
 // node doubles cannot live in a synctest bubble): when the loop has not stopped
 // by itself, the pipe is closed once the nodes have seen no new request for a
 // while (everything parsed was sent), so EOF finds nothing buffered.
-func vfc18LoopRun(ro *RedisOutput, nodes *vfc18Nodes, wire []byte) error {
+func vfc18LoopRun(ro *RedisOutput, nodes *vfc18Nodes, wire []byte, want int) error {
 	ctx, cancel := context.WithCancel(context.Background())
 	defer cancel()
+	b0 := nodes.blockCount()
 	pr, pw := io.Pipe()
 	done := make(chan error, 1)
 	go func() { done <- ro.sendAofBisync(ctx, "runid-loop", bufio.NewReaderSize(pr, 4096), 0, 0) }()
@@ -170,18 +171,24 @@ func vfc18LoopRun(ro *RedisOutput, nodes *vfc18Nodes, wire []byte) error {
 	select {
 	case err = <-done:
 	case <-wrote:
+		// `want` blocks are what a correct run delivers: wait for them (up to 3 s, so a
+		// loaded machine cannot make a good run look short), then for a quiet period
+		// (a run that delivers MORE is seen too); a run that delivers fewer costs 3 s.
 		last, stable := nodes.reqCount(), 0
-		for stable < 6 {
+		start := time.Now()
+		for stable < 10 {
 			select {
 			case err = <-done:
 				stable = 1 << 20
 				continue
-			case <-time.After(4 * time.Millisecond):
+			case <-time.After(5 * time.Millisecond):
 			}
-			if n := nodes.reqCount(); n == last {
-				stable++
-			} else {
+			n := nodes.reqCount()
+			switch {
+			case n != last:
 				last, stable = n, 0
+			case nodes.blockCount()-b0 >= want || time.Since(start) > 3*time.Second:
+				stable++
 			}
 		}
 		if stable < 1<<20 {
@@ -192,6 +199,12 @@ func vfc18LoopRun(ro *RedisOutput, nodes *vfc18Nodes, wire []byte) error {
 	pr.Close()
 	<-wrote
 	return err
+}
+
+func (ns *vfc18Nodes) blockCount() int {
+	ns.mu.Lock()
+	defer ns.mu.Unlock()
+	return len(ns.blocks)
 }
 
 // settle waits until the nodes have seen no request for a while (lane workers
@@ -288,16 +301,20 @@ func (w *vfc18World) loopCase(r *vfutil.Rand, mode config.ReplayMode, fbB, fbC s
 		injectAt = 1
 	}
 	var err error
+	nAcc := 0 // accepted prefix: what a correct run delivers before it stops by itself or idles
+	for nAcc < len(txns) && txns[nAcc].accept {
+		nAcc++
+	}
 	if injectAt < 0 {
-		err = vfc18LoopRun(ro, w.nodes, vfc18EncodeTxns(txns))
+		err = vfc18LoopRun(ro, w.nodes, vfc18EncodeTxns(txns), nAcc)
 	} else {
 		// the fault must hit the block of txns[1]: sync mode, one transaction per run
-		err = vfc18LoopRun(ro, w.nodes, vfc18EncodeTxns(txns[:1]))
+		err = vfc18LoopRun(ro, w.nodes, vfc18EncodeTxns(txns[:1]), 1)
 		if errors.Is(err, io.EOF) {
 			w.nodes.mu.Lock()
 			w.nodes.inject = inject
 			w.nodes.mu.Unlock()
-			err = vfc18LoopRun(ro, w.nodes, vfc18EncodeTxns(txns[1:]))
+			err = vfc18LoopRun(ro, w.nodes, vfc18EncodeTxns(txns[1:]), len(txns)) // 1 redirected attempt + the rest
 		}
 	}
 	w.nodes.settle()
